@@ -1,8 +1,143 @@
 import Driver.Proto
-/-! driver handlers for property C02 (ops `model.*`, `spec.*`, `trig.*`) -/
+import Verif.Model.Rename
+/-! driver handlers for property C02 (ops `model.c02.*`, `spec.c02.*`) -/
 namespace Verif.Driver.C02
-open Verif Verif.Driver
+open Verif Verif.Driver Verif.Spec.Scope Verif.Model.Rename
 
-def handlers : List (String × Handler) := []
+def cfgOf (n : Nat) : Cfg := if n == 0 then freqCfg else alphaCfg
+
+def natOf (b : Bytes) : Except String Nat :=
+  match parseIntChars (bytesToChars b) with
+  | some v => if v < 0 then .error "negative" else .ok v.toNat
+  | none => .error "bad nat"
+
+def natList (l : List Bytes) : Except String (List Nat) := l.mapM natOf
+
+def nameBytes (n : Name) : Bytes := charsToBytes n
+
+/-- `model.c02.getName cfg index` -/
+def opGetName : Handler := fun args => do
+  let c := cfgOf (← argNat args 0)
+  let i ← argNat args 1
+  .ok (nameBytes (getName c.start c.cont i))
+
+/-- `model.c02.renameScope cfg rename numArgs names uses undeclared order`
+    → `[validOrder, idx0, name0, idx1, name1, …]` -/
+def opRenameScope : Handler := fun args => do
+  let c := cfgOf (← argNat args 0)
+  let rename ← argBool args 1
+  let numArgs ← argNat args 2
+  let names := (← argList args 3).map bytesToChars
+  let uses ← natList (← argList args 4)
+  let und := (← argList args 5).map bytesToChars
+  let order ← natList (← argList args 6)
+  if names.length != uses.length then .error "names/uses length" else
+  let s : ScopeIn := { declared := names.zip uses, numArgs := numArgs, undeclared := und, order := order }
+  let r := renameScope c rename s
+  let valid := if rename then validOrder uses numArgs order else order == List.range names.length
+  .ok (listReply (boolBytes valid :: r.foldr (fun p acc => natBytes p.1 :: nameBytes p.2 :: acc) []))
+
+def nodupB (l : List Name) : Bool :=
+  match l with
+  | [] => true
+  | a :: r => !r.contains a && nodupB r
+
+/-- `spec.c02.fresh cfg after undeclared` — the per-call property evaluated on the names the implementation
+    chose: pairwise distinct, none is the name of an undeclared variable of the scope, none is a keyword,
+    each is a valid identifier.  Reply `1` or `0` + reason. -/
+def opFresh : Handler := fun args => do
+  let c := cfgOf (← argNat args 0)
+  let after := (← argList args 1).map bytesToChars
+  let und := (← argList args 2).map bytesToChars
+  let isStart (ch : Char) : Bool := ('a' ≤ ch && ch ≤ 'z') || ('A' ≤ ch && ch ≤ 'Z') || ch == '_' || ch == '$'
+  let isCont (ch : Char) : Bool := isStart ch || ('0' ≤ ch && ch ≤ '9')
+  let ident (n : Name) : Bool := match n with | [] => false | h :: t => isStart h && t.all isCont
+  if !nodupB after then .ok (strBytes "0 duplicate name") else
+  match after.find? (fun n => und.contains n) with
+  | some n => .ok (strBytes "0 name of an undeclared variable: " ++ nameBytes n)
+  | none =>
+  match after.find? (fun n => c.keywords.contains n) with
+  | some n => .ok (strBytes "0 keyword: " ++ nameBytes n)
+  | none =>
+  match after.find? (fun n => !ident n) with
+  | some n => .ok (strBytes "0 not an identifier: " ++ nameBytes n)
+  | none => .ok (strBytes "1")
+
+/-- preorder list with depths → forest -/
+def buildForest : Nat → Nat → List (Nat × Info) → Forest × List (Nat × Info)
+  | 0, _, l => (.nil, l)
+  | fuel + 1, d, l =>
+    match l with
+    | [] => (.nil, [])
+    | (d', i) :: rest =>
+      if d' == d then
+        let (ch, rest1) := buildForest fuel (d + 1) rest
+        let (sib, rest2) := buildForest fuel d rest1
+        (.node i ch sib, rest2)
+      else (.nil, l)
+
+def splitAtN (l : List Nat) (n : Nat) : List Nat × List Nat := (l.take n, l.drop n)
+
+def decodeScope (g : List Bytes) : Except String (Nat × Info) := do
+  let ns ← natList g
+  match ns with
+  | depth :: rn :: fn :: hw :: nd :: nu :: nr :: rest =>
+    let (decl, r1) := splitAtN rest nd
+    let (und, r2) := splitAtN r1 nu
+    let (refs, r3) := splitAtN r2 nr
+    if refs.length != nr || !r3.isEmpty then .error "bad scope group" else
+    .ok (depth, { declared := decl, undeclared := und, refs := refs, rename := rn != 0, isFunc := fn != 0,
+                  hasWith := hw != 0 })
+  | _ => .error "short scope group"
+
+/-- array-backed evaluation of `Model.Rename.renameForest`: the bindings of every scope come from the model's
+    `stepPairs`; only `assign` is replaced by an array update (first binding wins, as in `List.lookup`) -/
+def applyPairs (arr : Array Name) (pairs : List (VarId × Name)) : Array Name :=
+  pairs.reverse.foldl (fun a p => a.setIfInBounds p.1 p.2) arr
+
+def renameFast (c : Cfg) : Array Name → Forest → Array Name
+  | arr, .nil => arr
+  | arr, .node i ch sib =>
+    let arr1 := applyPairs arr (stepPairs c (fun v => arr.getD v []) i)
+    renameFast c (renameFast c arr1 ch) sib
+
+/-- `spec.c02.tree cfg scopes names` → `[wfTree, flagsOk, inputOk, captureFree(model naming), name0', name1', …]`:
+    the contract of the scope analysis evaluated on a parsed tree, the guards of `capture_free_partial`, and the
+    property evaluated on the naming the model of the traversal produces -/
+def opTree : Handler := fun args => do
+  let c := cfgOf (← argNat args 0)
+  let gs ← argGroups args 1
+  let scopes ← gs.mapM decodeScope
+  let names := ((← argList args 2).map bytesToChars).toArray
+  let ν : Naming := fun v => names.getD v []
+  let (f, rest) := buildForest (2 * scopes.length + 2) 0 scopes
+  if !rest.isEmpty then .error "malformed preorder" else
+  let arr' := renameFast c names f
+  let ν' : Naming := fun v => arr'.getD v []
+  let out := arr'.toList.map nameBytes
+  .ok (listReply ([boolBytes (wfForest f), boolBytes (flagsOk f), boolBytes (inputOk ν f),
+    boolBytes (captureFreeB ν' f)] ++ out))
+
+/-- `spec.c02.resolve scopes namesAfter` → `1`/`0`: `captureFreeB` of an arbitrary naming on the tree -/
+def opResolve : Handler := fun args => do
+  let gs ← argGroups args 0
+  let scopes ← gs.mapM decodeScope
+  let names := ((← argList args 1).map bytesToChars).toArray
+  let ν : Naming := fun v => names.getD v []
+  let (f, rest) := buildForest (2 * scopes.length + 2) 0 scopes
+  if !rest.isEmpty then .error "malformed preorder" else
+  .ok (boolBytes (captureFreeB ν f))
+
+/-- `model.c02.printProp keyIsIdent key value` -/
+def opPrintProp : Handler := fun args => do
+  let isId ← argBool args 0
+  let key ← argChars args 1
+  let value ← argChars args 2
+  .ok (charsToBytes (printProp isId key value))
+
+def handlers : List (String × Handler) :=
+  [("model.c02.getName", opGetName), ("model.c02.renameScope", opRenameScope),
+   ("spec.c02.fresh", opFresh), ("spec.c02.tree", opTree), ("spec.c02.resolve", opResolve),
+   ("model.c02.printProp", opPrintProp)]
 
 end Verif.Driver.C02
